@@ -354,6 +354,44 @@ func runC09(c *Ctx) {
 			})
 		}
 	}
+	// Race/Any: one goroutine per future (awaits are concurrent), otherwise "first settled / first success" cannot hold
+	for _, name := range []string{"Race", "Any"} {
+		f := c.fn(interpPkg, name)
+		if f == nil {
+			continue
+		}
+		inLoop := func(fn *ssa.Function, ins ssa.Instruction) bool {
+			for _, lp := range naturalLoops(fn) {
+				if lp.body[ins.Block()] {
+					return true
+				}
+			}
+			return false
+		}
+		n := 0
+		for _, cl := range innerClosures(f) {
+			eachInstr(cl, func(_ *ssa.BasicBlock, _ int, ins ssa.Instruction) {
+				if !isCallTo(ins, interpPath+".Future.Await") {
+					return
+				}
+				n++
+				// the closure is started by `go` inside a loop of the parent, and the await is not itself in a loop
+				spawnedPerFuture := false
+				eachInstr(cl.Parent(), func(_ *ssa.BasicBlock, _ int, x ssa.Instruction) {
+					if g, ok := x.(*ssa.Go); ok {
+						if mc, ok := g.Call.Value.(*ssa.MakeClosure); ok && mc.Fn == ssa.Value(cl) && inLoop(cl.Parent(), g) {
+							spawnedPerFuture = true
+						}
+					}
+				})
+				c.ob("C09-R5", interpPkg+"."+name+"#await-per-future-goroutine-"+itoa(n), ins.Pos(), spawnedPerFuture && !inLoop(cl, ins),
+					name+" awaits its futures sequentially (not one goroutine per future): a slow or never-settling earlier future delays or blocks the result, so the first-settled / first-success contract cannot hold")
+			})
+		}
+		if n == 0 {
+			c.ob("C09-R5", interpPkg+"."+name+"#awaits-futures", f.Pos(), false, name+" never awaits its futures in a goroutine")
+		}
+	}
 	if anyF := c.fn(interpPkg, "Any"); anyF != nil {
 		mu := localVarNamed(anyF, isSyncMutex)
 		if mu != "" {
